@@ -2,7 +2,7 @@
    half — CPU time, allocator behaviour — is fault enumeration under resource limits). *)
 From Coq Require Import ZArith List Bool.
 From DH Require Import Base.Plan Base.Table Model.Vhd Proofs.Vhd Model.Vdi Proofs.Vdi Model.Vhdx Proofs.Vhdx
-  Model.Hds Proofs.Hds Model.SnapChain Proofs.SnapChain.
+  Model.Hds Proofs.Hds Model.SnapChain Proofs.SnapChain Model.HyperV Proofs.HyperV.
 Import ListNotations.
 Open Scope Z_scope.
 
@@ -40,6 +40,24 @@ Theorem C11_snapshot_chain_bounded :
   forall shots guid r, get_snapshot_chain shots guid = Ok r -> (length r <= length shots)%nat.
 Proof. exact get_snapshot_chain_bounded. Qed.
 Print Assumptions C11_snapshot_chain_bounded.
+
+(* Hyper-V: the object-table worklist visits each offset at most once and ends on every input
+   (arbitrary loaders); opening and decoding never run out of fuel on any file. *)
+Theorem C11_hyperv_worklist :
+  forall (ld_otab : Z -> res (list oentry)) (ld_ktab : Z -> Z -> res ktable) (ld_rlog : Z -> res unit)
+         (U : list Z),
+  (forall o t, ld_otab o = Ok t -> In o U) ->
+  (forall o s, ld_ktab o s <> Fuel) -> (forall o, ld_rlog o <> Fuel) -> (forall o, ld_otab o <> Fuel) ->
+  forall k start, (length U < 2 ^ k)%nat ->
+  run_worklist ld_otab ld_ktab ld_rlog k start <> Fuel /\
+  forall st, run_worklist ld_otab ld_ktab ld_rlog k start = Ok st ->
+             NoDup (s_visited st) /\ (length (s_visited st) <= length U)%nat.
+Proof. exact run_worklist_terminates. Qed.
+Print Assumptions C11_hyperv_worklist.
+
+Theorem C11_hyperv_open : forall f, file_ok f -> open_file f <> Fuel.
+Proof. exact open_file_terminates. Qed.
+Print Assumptions C11_hyperv_open.
 
 Example C11_cycle_refused : get_snapshot_chain [(1, 2); (2, 1)] 1 = Err.
 Proof. reflexivity. Qed.
